@@ -38,9 +38,33 @@ def krylov : P String := do
       if r.ok then pure s!"ok {r.iters} | {wArr r.x}"
       else pure s!"err {Wire.wr r.err} | {wArr r.x}"
 
+/-- the solvers on a storage built from raw arrays (`from_vecs`) -/
+def krylovVecs : P String := do
+  let solver ← tok
+  let rows ← pNat; let cols ← pNat
+  let val : Array Float ← pArr
+  let ri : Array Nat ← pArr
+  let cs : Array Nat ← pArr
+  let b : Array Float ← pArr
+  let x0 : Array Float ← pArr
+  let maxIter ← pNat
+  let tol : Float ← Wire.rd
+  let itol ← pNat
+  match Sp.fromVecs rows cols val ri cs with
+  | .error e => pure ("!" ++ toString e)
+  | .ok s =>
+    let m : Sp.Method := match solver with
+      | "cg" => .cg | "bicg" => .bicg itol | "bicgstab" => .bicgstab | _ => .qmr
+    match Sp.solveIter s m b x0 maxIter tol Vec.norm2 with
+    | .error e => pure ("!" ++ toString e)
+    | .ok r =>
+      if r.ok then pure s!"ok {r.iters} | {wArr r.x}"
+      else pure s!"err {Wire.wr r.err} | {wArr r.x}"
+
 def exec (op : String) : P (Option String) := do
   match op with
   | "krylov" | "krylov9" => some <$> krylov
+  | "krylovv" => some <$> krylovVecs
   | _ => pure none
 end DrvKrylov
 end Ohsl
